@@ -329,8 +329,16 @@ func checkMain(prop, tier string) int {
 		fmt.Printf("VIOLATION property=%s replay=%s\n", prop, path)
 		fmt.Printf("  oracle=%s signature=%s seed=%d\n  %s\n", verdict.Oracle, verdict.Signature, v.Seed, strings.ReplaceAll(verdict.Msg, "\n", "\n  "))
 	}
+	knownHit := len(printedKnown)
+	// every listed open finding of this property is named on every run, reproduced by this run's cases or not
+	for _, k := range known {
+		if k.Property == prop && k.Status == "open" && !printedKnown[k.Signature] {
+			printedKnown[k.Signature] = true
+			fmt.Printf("KNOWN-FINDING: property=%s %s (listed in known_findings.json; not reproduced by the cases of this run)\n", prop, k.What)
+		}
+	}
 	wall := time.Since(start).Seconds()
-	if err := writeEvidence(prop, tier, seed, agg, len(hashes), wall, nw, confirmed, len(printedKnown), b); err != nil {
+	if err := writeEvidence(prop, tier, seed, agg, len(hashes), wall, nw, confirmed, knownHit, b); err != nil {
 		fmt.Fprintln(os.Stderr, "HARNESS-ERROR: evidence:", err)
 		return 2
 	}
